@@ -280,6 +280,82 @@ func runSeq(t *testing.T, tmp string, id int, seq []op) (string, string) {
 	return strings.Join(tr, " | "), strings.Join(tm, " | ")
 }
 
+// TestWalkWithMutatingCallback: entries created by the callback inside the
+// directory being reported are not visited (the names are read before the
+// callback), entries created in a directory that is listed later are.
+func TestWalkWithMutatingCallback(t *testing.T) {
+	tmp := t.TempDir()
+	for _, target := range []string{"d/x", "d/s/x"} {
+		base := filepath.Join(tmp, strings.ReplaceAll(target, "/", "_"))
+		os.MkdirAll(base+"/d/s", 0755)
+		os.WriteFile(base+"/d/f", []byte("1"), 0644)
+		Reset()
+		MkdirAll("/m/d/s", 0755)
+		WriteFile("/m/d/f", []byte("1"), 0644)
+		var real, model []string
+		filepath.Walk(base+"/d", func(q string, i os.FileInfo, err error) error {
+			if len(real) > 20 {
+				return filepath.SkipDir
+			}
+			real = append(real, strings.TrimPrefix(q, base))
+			if q == base+"/d" {
+				os.MkdirAll(base+"/"+target, 0755)
+			}
+			return nil
+		})
+		Walk("/m/d", func(q string, i os.FileInfo, err error) error {
+			if len(model) > 20 {
+				return SkipDir
+			}
+			model = append(model, strings.TrimPrefix(q, "/m"))
+			if q == "/m/d" {
+				MkdirAll("/m/"+target, 0755)
+			}
+			return nil
+		})
+		if strings.Join(real, " ") != strings.Join(model, " ") {
+			t.Errorf("target %s: os walk %v, model walk %v", target, real, model)
+		}
+	}
+}
+
+// SkipDir returned for a directory skips its subtree, returned for a file
+// skips the rest of the containing directory - for every choice of the node
+// that answers SkipDir in a small tree.
+func TestWalkSkipDir(t *testing.T) {
+	tmp := t.TempDir()
+	nodes := []string{"/d", "/d/a", "/d/a/p", "/d/b", "/d/c", "/d/c/q", "/d/e"}
+	os.MkdirAll(tmp+"/d/a", 0755)
+	os.MkdirAll(tmp+"/d/c", 0755)
+	Reset()
+	MkdirAll("/m/d/a", 0755)
+	MkdirAll("/m/d/c", 0755)
+	for _, f := range []string{"/d/a/p", "/d/b", "/d/c/q", "/d/e"} {
+		os.WriteFile(tmp+f, []byte("1"), 0644)
+		WriteFile("/m"+f, []byte("1"), 0644)
+	}
+	for _, skipAt := range nodes {
+		var real, model []string
+		rerr := filepath.Walk(tmp+"/d", func(q string, i os.FileInfo, err error) error {
+			real = append(real, strings.TrimPrefix(q, tmp))
+			if strings.TrimPrefix(q, tmp) == skipAt {
+				return filepath.SkipDir
+			}
+			return nil
+		})
+		merr := Walk("/m/d", func(q string, i os.FileInfo, err error) error {
+			model = append(model, strings.TrimPrefix(q, "/m"))
+			if strings.TrimPrefix(q, "/m") == skipAt {
+				return SkipDir
+			}
+			return nil
+		})
+		if strings.Join(real, " ") != strings.Join(model, " ") || (rerr == nil) != (merr == nil) {
+			t.Errorf("skip at %s: os walk %v (%v), model walk %v (%v)", skipAt, real, rerr, model, merr)
+		}
+	}
+}
+
 func TestModelAgreesWithOS(t *testing.T) {
 	depth := 3
 	if os.Getenv("HOSTFSDIFF_DEPTH") == "2" {
